@@ -478,7 +478,20 @@ impl<'a> G<'a> {
         self.msg_id += 1;
         let id = self.msg_id;
         let m = self.m();
-        match self.rng.below(7) {
+        match self.rng.below(8) {
+            7 if !self.ints.is_empty() => {
+                // a warning raised by a statement that prints nothing, right after a line end: it runs in the
+                // look-ahead of the line before it, which is kept (end, choices, glue) or rewound (more text)
+                let v = self.rng.pick(&self.ints).clone();
+                self.line(indent, &format!("{m} pre-silent ws{id}"));
+                self.line(indent, &format!("{{ zero_{id} == 1:"));
+                self.line(indent + 1, &format!("~ temp us_{id} = 5"));
+                self.line(indent, "}");
+                self.line(indent, &format!("~ {v} = us_{id}"));
+                if self.rng.chance(1, 2) {
+                    self.line(indent, &format!("{m} post-silent ws{id}"));
+                }
+            }
             5 | 6 => {
                 // warning: read of a temp whose declaration was never executed
                 self.line(indent, &format!("{{ zero_{id} == 1:"));
@@ -1155,6 +1168,7 @@ pub fn render(rng: &mut Rng, cfg: &GenCfg) -> String {
     // ---- external fallbacks
     let mut externals = g.externals.clone();
     externals.extend(g.str_externals.iter().cloned());
+    let nested = !g.cfg.external_heavy && g.rng.chance(1, 3);
     for e in externals.iter() {
         if g.cfg.ext_without_fallback && g.rng.chance(1, 2) {
             continue;
@@ -1169,6 +1183,18 @@ pub fn render(rng: &mut Rng, cfg: &GenCfg) -> String {
             let sum = if terms.is_empty() { "7".to_string() } else { format!("{} + 7", terms.join(" + ")) };
             g.line(0, &format!("~ return {sum}"));
         } else {
+            // fallbacks that call the next external in turn (a cycle over all of them, bounded by the
+            // first argument): call sites inside fallback functions, unbound externals calling each other
+            let with_param: Vec<&(String, usize)> = externals.iter().filter(|x| x.1 >= 1).collect();
+            if nested && e.1 >= 1 && with_param.len() >= 2 {
+                let i = with_param.iter().position(|x| x.0 == e.0).unwrap_or(0);
+                let next = with_param[(i + 1) % with_param.len()];
+                let mut args = vec!["p0 - 1".to_string()];
+                args.extend((1..next.1).map(|_| "1".to_string()));
+                g.line(0, "{ p0 > 0 && p0 < 5:");
+                g.line(1, &format!("~ return {}({}) + 1", next.0, args.join(", ")));
+                g.line(0, "}");
+            }
             let sum = if params.is_empty() { "7".to_string() } else { format!("{} + 7", params.join(" + ")) };
             g.line(0, &format!("~ return {sum}"));
         }
